@@ -1,5 +1,5 @@
 """C16 -- unmocking calls the registered real function with the mock as its dependency."""
-import collections, json, random, time
+import collections, copy, json, random, time
 from .. import common as C
 from .. import cases as K
 from .. import layer_d as D
@@ -69,6 +69,44 @@ def reaches_real(case):
         if o.startswith("real") or o.startswith("rec(") or o.startswith("base(") or "cannot be unmocked" in o:
             return True
     return False
+
+
+def shape_part(rng, tier, seed):
+    """traits from the C05 grammar (every receiver kind incl. the typed spellings `self: &Self` / `self: &mut Self`, arity 0..5, parameter
+    classes, sync / async flavours, module and flattened api) that carry an unmock_with list -- entries `_`, path, path(exprs) with `self`
+    first / last / absent and shuffled or fewer parameters, receiver-less provided functions occupying slots -- with the method under test
+    answered by applies_unmocked(): the registered function must be called once with exactly the mock and the listed values, its result
+    returned unchanged (awaited for async); with no function registered the call must panic naming Trait::method"""
+    from . import C05
+    traits = []
+    tries = 0
+    want = 60 if tier == "quick" else 400
+    while len(traits) < want and tries < 20 * want:
+        tries += 1
+        t = C05.gen_trait(rng, 5)
+        ms = [m for m in t["methods"] if m["resp"] == "unmock"]
+        if ms:
+            traits.append(t)
+    try:
+        cases, impl, model = C05.both(traits, harness="shapes16")
+    except C05.BuildBroken as b:
+        ti = b.idx[0] if b.idx else 0
+        return len(traits), {"property": "C16", "seed": seed, "part": "shape",
+                             "theorem_or_correspondence": "correspondence C16 (shape part): a generated trait with unmock_with no longer compiles with the real macro (model: C05_unmock_arm / C05_unmock_slot)",
+                             "case": {"trait": traits[ti], "method": 0}, "rust_trait": C05.rust_trait(0, traits[ti]),
+                             "observed_on_implementation": ["DOES-NOT-COMPILE"] + [l for l in b.log.splitlines() if l.startswith("error")][:6],
+                             "replay_cmd": "./check C16 --replay <this file>"}
+    badk = [k for k in range(len(cases)) if traits[cases[k][0]]["methods"][cases[k][1]]["resp"] == "unmock" and C05.proj(impl[k]) != C05.proj(model[k])]
+    n = sum(1 for (ti, mi) in cases if traits[ti]["methods"][mi]["resp"] == "unmock")
+    if not badk:
+        return n, None
+    ti, mi = cases[badk[0]]
+    t1 = copy.deepcopy(traits[ti]); 
+    return n, {"property": "C16", "seed": seed, "part": "shape",
+               "theorem_or_correspondence": "correspondence C16 (shape part): generated trait with unmock_with compiled with the real macro vs Macro/ShapeRun (C05_unmock_arm / C05_unmock_slot)",
+               "case": {"trait": traits[ti], "method": mi}, "rust_trait": C05.rust_trait(ti, traits[ti]), "rust_driver": C05.rust_driver(ti, mi, traits[ti]),
+               "coq_case": C05.coq_case(traits[ti], mi), "expected_by_model": model[badk[0]], "observed_on_implementation": impl[badk[0]],
+               "disagreeing_cases_in_run": len(badk), "replay_cmd": "./check C16 --replay <this file>"}
 
 
 def run(tier, seed):
@@ -147,6 +185,20 @@ def run(tier, seed):
         C.write_evidence("C16", tier, seed, cov, time.time() - t0, 1)
         C.violation("C16", path)
         return 1
+    # shape part: generated traits over the signature grammar with unmock_with in its three forms at every position (the C05
+    # machinery and macro model: C05_unmock_arm, C05_unmock_slot), every method answered through applies_unmocked()
+    shape_n, shape_payload = 0, None
+    if not bad:
+        shape_n, shape_payload = shape_part(rng, tier, seed)
+        cov["shape_part"] = {"evaluations": shape_n, "rule": shape_part.__doc__}
+        cov["obligations"] += 1
+        cov["discharged"] += 0 if shape_payload else 1
+        cov["evaluations"] += shape_n
+    if shape_payload is not None:
+        path = C.write_replay("C16", seed, shape_payload)
+        C.write_evidence("C16", tier, seed, cov, time.time() - t0, 1)
+        C.violation("C16", path)
+        return 1
     if f1_hits and not f1_listed:
         # the faithful model reproduces F1, so model and code agree; without the recorded finding this is a violation of the property
         c = next(c for c, o in zip(cases, impl) if any("D::m_mut cannot be unmocked" in x for x in o))
@@ -170,6 +222,18 @@ def run(tier, seed):
 
 def replay(path):
     payload = json.load(open(path))
+    if payload.get("part") == "shape":
+        from . import C05
+        t, mi = payload["case"]["trait"], payload["case"]["method"]
+        try:
+            cases, impl, model = C05.both([t], harness="shapes16")
+        except C05.BuildBroken as b:
+            print("does not compile:", [l for l in b.log.splitlines() if l.startswith("error")][:6])
+            C.violation("C16", path); return 1
+        print("model:", model[mi]); print("impl :", impl[mi])
+        if C05.proj(impl[mi]) != C05.proj(model[mi]):
+            C.violation("C16", path); return 1
+        print("agree"); return 0
     case = payload["case"]
     ci, cm = D.both(CRATE, [case], features=payload.get("features"))
     print("model:", cm[0]); print("impl :", ci[0])
